@@ -231,6 +231,21 @@ fn float3<T: Tier>(rep: &mut Report) {
                 }
                 let r: Basis3<T> = Rotation::between_vectors(ca, cb);
                 ctx.check(dist(v3(r.rotate_vector(ca)), bf) <= tol_unit * 2.0, &key(&format!("between_vectors/Basis3/maps-a-to-b/{cls}")), || format!("r(a) = {:?}", r.rotate_vector(ca)));
+                // ... and is a rotation: orthonormal columns, determinant +1. This does not depend on how well a x b is
+                // determined - a matrix built from a unit quaternion, or from any formula for a rotation evaluated
+                // stably, is orthonormal to a few roundings whatever the angle between a and b
+                let m = basis3_arr(r);
+                let mf: [[f64; 3]; 3] = std::array::from_fn(|c| std::array::from_fn(|rw| m[c][rw].f()));
+                let mut worst = 0.0f64;
+                for c1 in 0..3 {
+                    for c2 in 0..3 {
+                        let d = dot_f(mf[c1], mf[c2]) - if c1 == c2 { 1.0 } else { 0.0 };
+                        worst = if d.is_nan() { f64::NAN } else { worst.max(d.abs()) };
+                    }
+                }
+                let det = dot_f(cross_f(mf[0], mf[1]), mf[2]);
+                let tol_orth = K_TOL * T::U * 8.0;
+                ctx.check(worst <= tol_orth && (det - 1.0).abs() <= tol_orth * 2.0, &key(&format!("between_vectors/Basis3/orthonormal/{cls}")), || format!("columns orthonormal only to {worst:e}, determinant {det} (tolerance {tol_orth:e}); matrix {:?}", mf));
             } else {
                 ctx.branch("ill-conditioned-not-judged");
             }
